@@ -99,6 +99,25 @@ inductive Flushed where
   | retained (id : Nat)
   deriving DecidableEq, Repr, Inhabited
 
+/-- Ghost (not in the code, never printed): which queue entry a completely written packet belonged
+to. A retained packet is named by the ghost serial of its entry (`RetainedPacket.ser`) and its
+packet identifier. -/
+inductive Tag where
+  | control (a : ControlAction)
+  | release (id rc : Nat)
+  | retained (ser id : Nat)
+  /-- `set_written` was called for an entry that is not in its queue (does not happen). -/
+  | unknown
+  deriving DecidableEq, Repr, Inhabited
+
+/-- Ghost: one entry of the transmission log — on the transport with ordinal `net` (1 = first transport
+handed to `connect`) the last byte of the packet `bytes` of queue entry `tag` was accepted. -/
+structure LogEntry where
+  net : Nat
+  tag : Tag
+  bytes : Bytes
+  deriving DecidableEq, Repr, Inhabited
+
 /-- The await points. A suspended operation is exactly one of these. -/
 inductive Pc where
   | stepWrite (ctx : StepCtx) (pkt : Flushed) (bytes : Bytes) (written len now : Nat)
@@ -131,6 +150,11 @@ structure World where
   half-written on a wire that is still in use (connect and QoS 0 publish are not cancel-safe; a
   cancelled `disconnect` is finding F2b). Set by `cancelFut` only. -/
   tornNets : List Nat := []
+  /-- Ghost (not in the code, never printed): the transmission log — every queue entry
+  (acknowledgement / PINGREQ, PUBREL, retained packet) whose packet has been handed to a transport
+  completely, oldest first, with the transport it went to. Appended to by `setWritten` only, at the
+  moment `set_written` moves the entry to `Flush`. -/
+  log : List LogEntry := []
   deriving Inhabited
 
 namespace World
